@@ -49,9 +49,19 @@ def strategy(tier):
             lims = ir.state_limits(m)
             cands = [(nm, -1) for nm, (lo, hi) in zip(names, lims) if lo is not None] + \
                     [(nm, +1) for nm, (lo, hi) in zip(names, lims) if hi is not None]
+            # prefer a state that no event touches (a pure bookkeeping state until the ODE term arrives)
+            touched_by_events = {t[k] for ev in m["events"] for t in ev["trans"] for k in ("o", "d") if t[k]}
+            idle = [c for c in cands if c[0] not in touched_by_events]
+            if idle and draw(st.booleans()):
+                cands = idle
             if cands:
                 nm, sgn = draw(st.sampled_from(cands))
-                drift = {"state": nm, "rate": sgn * draw(st.sampled_from([0.5, 2.0, 8.0])),
+                # strong enough to reach the limit well inside the horizon
+                i_ = names.index(nm)
+                lo_, hi_ = lims[i_]
+                dist = (su["x0"][i_] - lo_) if sgn < 0 else (hi_ - su["x0"][i_])
+                mag = max(draw(st.sampled_from([0.5, 2.0, 8.0])), 2.0 * (dist + 1) / max(su["horizon"], 1e-3))
+                drift = {"state": nm, "rate": sgn * S.sig(min(mag, 1e4), 3),
                          "when": draw(st.sampled_from(["construction", "add_ode-after-first-run", "ode_list-after-first-run"]))}
         return {"model": m, "setup": su, "algo": algo, "drift": drift,
                 "pre_tau": draw(st.sampled_from([0.05, 0.5, 2.0, 10.0])),
@@ -122,6 +132,8 @@ def oracle(case, rec):
     runs = list(Xs)
     if drift:
         rec.label("drift:" + drift["when"])
+        if not any(drift["state"] in (t["o"], t["d"]) for ev in m["events"] for t in ev["trans"]):
+            rec.label("drift:on-a-state-no-event-touches")
     if drift and drift["when"] != "construction":
         # second simulation on the same object after an ODE term was added
         from pygom import Transition
